@@ -4,6 +4,7 @@ import (
 	"fmt"
 	"io"
 	"path/filepath"
+	"slices"
 
 	"github.com/DDP-Projekt/Kompilierer/src/ast"
 	"github.com/DDP-Projekt/Kompilierer/src/ast/annotators"
@@ -290,11 +291,31 @@ func (c *compiler) evaluate(expr ast.Expression) (value.Value, ddpIrType, bool) 
 // helper to insert a function into the global function map
 // returns the ir function
 func (c *compiler) insertFunction(name string, funcDecl *ast.FuncDecl, irFunc *ir.Func) *ir.Func {
+	markBoolsZeroExt(irFunc)
 	c.functions[name] = &funcWrapper{
 		funcDecl: funcDecl,
 		irFunc:   irFunc,
 	}
 	return irFunc
+}
+
+// a Wahrheitswert is a C bool: the C ABI passes and returns it zero-extended to a whole byte,
+// a bare i1 only defines the lowest bit (e.g. a negated i1 would arrive in C as 0xFE = true)
+func markBoolsZeroExt(irFunc *ir.Func) {
+	isBool := func(t types.Type) bool {
+		intType, ok := t.(*types.IntType)
+		return ok && intType.BitSize == 1
+	}
+
+	for _, param := range irFunc.Params {
+		if isBool(param.Typ) && !slices.ContainsFunc(param.Attrs, func(a ir.ParamAttribute) bool { return a == enum.ParamAttrZeroExt }) {
+			param.Attrs = append(param.Attrs, enum.ParamAttrZeroExt)
+		}
+	}
+
+	if isBool(irFunc.Sig.RetType) && !slices.ContainsFunc(irFunc.ReturnAttrs, func(a ir.ReturnAttribute) bool { return a == enum.ReturnAttrZeroExt }) {
+		irFunc.ReturnAttrs = append(irFunc.ReturnAttrs, enum.ReturnAttrZeroExt)
+	}
 }
 
 func (c *compiler) setup() {
